@@ -62,6 +62,9 @@ func c04CheckRange(w *mon.W, mask uint32, h int, from, to uint64, exp []uint64) 
 		w.Bucket("range/empty-result")
 	} else {
 		w.Distinct(gen.Hash64(uint64(mask), from, to))
+		if len(exp)&3 == 0 && !retainCheck(w, "AllPaths", "bmtree.AllPaths", func() uint64 { return gen.HashWords(got) }) {
+			return false
+		}
 	}
 	if from > to {
 		w.Bucket("range/from>to")
@@ -328,6 +331,9 @@ func c04Decode(w *mon.W, idx int) {
 	}
 	if len(exp) > 0 {
 		w.Distinct(gen.Hash64(uint64(mask), gen.HashWords(orig)))
+		if !retainCheck(w, "Decode", "bmtree.Decode", func() uint64 { return gen.HashWords(got) }) {
+			return
+		}
 	}
 	w.Sample(func() interface{} {
 		return mon.D{"bitmapSize": fmt.Sprintf("%#b", mask), "height": h, "bm_words": len(orig), "kind": kind, "decoded_paths": len(exp)}
